@@ -5,22 +5,27 @@ from harness.c03 import Out
 
 PROPERTY = 'C04'
 LEVEL = 'other'
-FILES = ['mesonbuild/backend/ninjabackend.py']
+FILES = ['mesonbuild/backend/ninjabackend.py', 'mesonbuild/backend/backends.py', 'mesonbuild/utils/universal.py']
 ENCODED = ['NinjaBuildElement.__init__/add_dep/add_orderdep/add_item/check_outputs/count_rule_references/_should_use_rspfile/write',
-           'NinjaRule.__init__/write/should_use_rspfile/_length_estimate', 'NinjaBuild.add_rule/add_build/write', 'ninja_quote']
+           'NinjaRule.__init__/write/should_use_rspfile/_length_estimate', 'NinjaBuild.add_rule/add_build/write', 'ninja_quote',
+           'Backend.generate_unity_files/_determine_ext_objs/get_unity_source_file/object_filename_from_source/canonicalize_filename, NinjaBackend.get_target_source_can_unity, '
+           'classify_unity_sources (unity-extract obligation; file writes are recorders, compilers are 3 stubs c/cpp/fortran)']
 EXPLANATION = ('Symbolic execution of the real manifest writer on a manifest of up to 2 rules and 2-3 build statements whose output, implicit-output, input, '
                'dependency and order-only paths are symbolic strings (alphabet with space, colon, $, |, #, backslash), whose rule is chosen symbolically (defined, '
                'phony, undefined) and with rsp_threshold symbolic; the text is parsed by a reference implementation of the Ninja manifest grammar and compared '
                'with what was given: every statement parses, uses phony or a rule defined in the same text (including the _RSP variant), lists round-trip, '
-               'dependencies come out sorted whatever the insertion order, and write() raises "Multiple producers" iff two statements share an output path.')
+               'dependencies come out sorted whatever the insertion order, and write() raises "Multiple producers" iff two statements share an output path. '
+               'One edge kind of the closure claim is decided too: for a unity target with 0-5 (7) sources over c/cpp/cc/f90 and a SYMBOLIC unity_size, the objects '
+               'extract_all_objects() hands to a consumer (Backend._determine_ext_objs) are exactly the objects of the unity sources generate_unity_files writes '
+               '(which generate_target compiles one by one), no unity file is empty or exceeds unity_size, and every source is included exactly once.')
 ASSUMPTIONS = ['paths of 1-2 characters over {a, b, space, :, $, |, #, \\}', 'reference Ninja parser is the trusted base',
                'an undefined rule makes write() fail (any exception): no manifest is produced, which does not violate the statement']
-OUT = ('EVERYTHING that needs a configured project: which edges generate_target/generate_custom_target/generate_link/generate_ending create, existence of inputs, '
+OUT = ('EVERYTHING ELSE that needs a configured project: which edges generate_target/generate_custom_target/generate_link/generate_ending create, existence of inputs, '
        'acyclicity, reachability from all / meson-test-prereq, configure-time rejection of colliding target names. The graph-level half of C04 is NOT decided here.')
 MANIFEST = dict(
     text='Bounded symbolic decision of STATEMENT-LEVEL well-formedness only: whatever paths/rules/dep orders (within the bound) are handed to NinjaBuild, the text it '
          'writes is a valid manifest for a reference Ninja parser, references only defined rules, round-trips every path list, and two producers of one path are '
-         'rejected. The graph-level claims of C04 (closure, acyclicity, reachability from all) need a configured project and are not decided by this check.',
+         'rejected; plus closure for one edge kind (extracted objects of a unity target exist, for every unity_size). The other graph-level claims of C04 (closure in general, acyclicity, reachability from all) need a configured project and are not decided by this check.',
     note='Partial claim. Trusted: symx engine, z3, reference Ninja parser. Bounds: <=2 rules, <=2 build statements (3 in thorough for the duplicate-output rule), paths <=2 chars.')
 
 nb = ME = None
@@ -166,6 +171,90 @@ def ob_shared_rule():
     return h
 
 
+class FakeCompiler:
+    def __init__(self, language, suffixes, cant_unity=False):
+        self.language, self.suffixes, self.file_suffixes = language, suffixes, tuple(suffixes)
+    def can_compile(self, src):
+        name = src.fname if hasattr(src, 'fname') else src
+        return name.rsplit('.', 1)[-1] in self.suffixes
+    def get_default_suffix(self): return self.suffixes[0]
+    def get_id(self): return 'gcc'
+    def get_language(self): return self.language
+    def get_argument_syntax(self): return 'gcc'
+
+
+def mk_unity_backend(unity_size):
+    import types
+    from mesonbuild.backend import backends as BK
+    from mesonbuild import build as B
+    from mesonbuild.mesonlib import MachineChoice
+    be = object.__new__(BK.Backend)
+    opts = {'unity': 'on', 'unity_size': unity_size, 'b_lto': False}
+    machine = types.SimpleNamespace(get_object_suffix=lambda: 'o', is_windows=lambda: False)
+
+    class Machines:
+        def __getitem__(self, k): return machine
+    be.environment = types.SimpleNamespace(machines=Machines(), get_build_dir=lambda: '/bld', get_source_dir=lambda: '/src',
+                                           coredata=types.SimpleNamespace(get_option_for_target=lambda t, key: opts[key.name]))
+    be.source_dir, be.build_dir, be.build_to_src = '/src', '/bld', '../src'
+    be.get_target_dir = lambda t: t.subdir
+    t = object.__new__(B.Executable)
+    t.name, t.subdir, t.subproject, t.filename, t.for_machine = 'prog', 'sub', '', 'prog', MachineChoice.HOST
+    t.compilers = {'c': FakeCompiler('c', ['c']), 'cpp': FakeCompiler('cpp', ['cpp', 'cc']), 'fortran': FakeCompiler('fortran', ['f90'])}
+    t.pch = {}
+    t.generated = []
+    return be, BK, B, t
+
+
+def ob_unity(nmax):
+    """extract_all_objects() of a unity target: the objects the consumer is told to link (Backend._determine_ext_objs) are exactly the objects of the unity
+    sources the producer writes and compiles (Backend.generate_unity_files, whose result generate_target compiles one by one) - closure for this edge kind,
+    for every unity_size and every number of sources per language"""
+    def h():
+        from mesonbuild.mesonlib import File
+        import mesonbuild.mesonlib as ML
+        u = sym_int('unity_size', 2, 12)
+        be, BK, B, t = mk_unity_backend(u)
+        n = choose(nmax + 1, 'nsrc')
+        sufs = ['c', 'cpp', 'f90', 'cc']
+        srcs = [File(False, 'sub', 's%d.%s' % (i, sufs[choose(4, 'lang%d' % i)])) for i in range(n)]
+        t.sources = list(srcs)
+        written = []
+        class FakeOut:
+            def __init__(s, name): s.name = name; written.append(s); s.lines = []
+            def write(s, x): s.lines.append(x)
+            def close(s): pass
+        saved = (BK.__dict__.get('open'), BK.os.makedirs, BK.os.path.exists, ML.replace_if_different)
+        BK.open = lambda name, *a, **k: FakeOut(name)
+        BK.os.makedirs = lambda *a, **k: None
+        ex = BK.os.path.exists
+        BK.os.path.exists = lambda p: True
+        BK.mesonlib.replace_if_different = lambda a, b: None
+        try:
+            unity_src = [x for x in srcs if nb.NinjaBackend.get_target_source_can_unity(be, t, x)]      # as generate_target selects them
+            produced = be.generate_unity_files(t, unity_src)
+            eo = B.ExtractedObjects(t, list(srcs), [], [], True, False)
+            got = be._determine_ext_objs(eo)
+        finally:
+            if saved[0] is None: del BK.open
+            else: BK.open = saved[0]
+            BK.os.makedirs, BK.os.path.exists = saved[1], saved[2]
+            BK.mesonlib.replace_if_different = saved[3]
+        tdir = be.get_target_private_dir(t)
+        from mesonbuild.mesonlib import get_compiler_for_source
+        compiled = list(produced) + [x for x in srcs if x not in unity_src]        # fortran cannot be unified: compiled one by one
+        want = [be.object_filename_from_source(t, get_compiler_for_source(t.compilers.values(), f), f, tdir) for f in compiled]
+        check(sorted(got) == sorted(want), 'extracted objects of a unity target = objects of the unity sources that are generated')
+        check(len(set(got)) == len(got), 'no object listed twice')
+        total = sum(len([l for l in w.lines if l.startswith('#include')]) for w in written)
+        check(total == len(unity_src), 'every unifiable source is included in exactly one unity file')
+        check(all(0 < len(w.lines) and decide(len(w.lines) <= u) for w in written), 'no unity file is empty or larger than unity_size')
+        if n: cover('nonempty')
+        if any(len(w.lines) > 1 for w in written): cover('shared-unity-file')
+        if len(written) > 2: cover('several-unity-files')
+    return h
+
+
 def obligations(tier):
     q = tier == 'quick'
     out = [Obligation('paths[%d]' % k, ob_statement(k, False), dict(path_len=k, lists='outputs, implicit outputs, inputs', alphabet=PA, rule='R|S|phony|undefined', rsp_threshold='symbolic'),
@@ -175,6 +264,8 @@ def obligations(tier):
     out.append(Obligation('shared-rule', ob_shared_rule(), dict(statements='2-3 on rules R (rspable) / S', arg_lengths='1 | 40 | 120', rsp_threshold='symbolic 0..200'), labels=('both', 'one'), max_paths=3000000))
     out.append(Obligation('pipe-in-path', ob_statement(1, False, alpha='|a'), dict(path_len=1, alphabet='|a'), labels=('roundtrip',),
                           classify=lambda label, inputs: 'unescaped | in a build-line path' if any(k == 'str' and '|' in v for k, n, v in inputs) else label))
+    out.append(Obligation('unity-extract', ob_unity(5 if q else 7), dict(sources='0..%d over c / cpp / cc / f90' % (5 if q else 7), unity_size='symbolic 2..12'),
+                          labels=('nonempty', 'shared-unity-file', 'several-unity-files'), max_paths=3000000))
     for n, pl in ((2, 1), (2, 2)) if q else ((2, 1), (2, 2), (3, 1), (3, 2)):
         out.append(Obligation('producers[%d,%d]' % (n, pl), ob_producers(n, pl), dict(statements=n, outputs_each='1-2', path_len=pl), labels=('rejected', 'accepted'), max_paths=3000000))
     return out
